@@ -73,14 +73,14 @@ struct World {
           op[i] = make_op(schedule_at(sched, sclock::time_point(std::chrono::nanoseconds(BASE + scn->due[i - 1]))), Rcv{this, i});
         }
         armed[i] = true;
-        vrt::ev("{\"e\":\"ArmBegin\",\"op\":%d,\"due\":%lld,\"now\":%lld}", i, dueRel, rel_now());
+        vrt::ev("{\"e\":\"ArmBegin\",\"sync\":1,\"op\":%d,\"due\":%lld,\"now\":%lld}", i, dueRel, rel_now());
         vrt::log_flush();
         op[i]->start();
         vrt::ev("{\"e\":\"ArmEnd\",\"op\":%d,\"now\":%lld}", i, rel_now());
       } else {
         vrt::ev("{\"e\":\"StopBegin\",\"op\":%d}", i);
         src[i]->request_stop();
-        vrt::ev("{\"e\":\"StopEnd\",\"op\":%d}", i);
+        vrt::ev("{\"e\":\"StopEnd\",\"op\":%d,\"now\":%lld}", i, rel_now());
       }
     }
   }
@@ -142,7 +142,7 @@ int main(int argc, char** argv) {
   for (long x = from; x < to && x < (long)scns.size(); ++x) {
     const Scenario& sc = scns[x];
     tseam::vnow_ns.store(BASE);
-    vrt::ev("{\"e\":\"Reset\",\"x\":%ld,\"k\":0,\"scn\":%d,\"now\":0}", x, sc.id);
+    vrt::ev("{\"e\":\"Reset\",\"x\":%ld,\"k\":0,\"scn\":%d,\"now\":0,\"rt\":0,\"slack\":0}", x, sc.id);
     vrt::log_flush();
     auto w = std::make_unique<World>(); w->scn = &sc;
     for (int i = 1; i <= w->n(); ++i) w->src[i] = std::make_unique<inplace_stop_source>();
